@@ -170,6 +170,27 @@ _EXTRA_DECIDES = {
     'C19': 'every occurrence of a pair in a word is counted; training starts from single bytes',
     'C20': 'distances are never truncated to integers',
 }
+# clauses added after the blind third round
+_EXTRA3 = {
+    'C01': 'a parsed special token is looked up in the special vocabulary; Vocab::build de-duplicates before numbering (R-C04-3 re-evaluated)',
+    'C02': 'the merge-loop rules of C03 (stamps, staleness filter, neighbour searches, re-pushes) re-evaluated',
+    'C03': 'no adaptor drops initial candidates between their construction and the heap',
+    'C04': 'token_to_id consults the special vocabulary first; the BPE byte branch is decided on one BYTE',
+    'C05': 'the panic hook ends the process (R-C09-5 re-evaluated)',
+    'C06': 'the order-preserving direct path is selected by !sort && !shuffle alone',
+    'C10': 'the grapheme flag reaches CharString::new unchanged; the whitespace predicate is the Unicode one (R-C11-1); CharString::new has two segmentations only',
+    'C11': 'CharString::new: graphemes(true) / chars() selected by the flag alone, no narrowing of cluster lengths; grapheme flag unchanged at every site',
+    'C12': 'grapheme flag unchanged at every CharString::new; segmentation primitive (R-C11-6)',
+    'C13': 'normalised edit distance divides by the Character count (R-C12-1 re-evaluated); grapheme flag unchanged in _group_words',
+    'C14': 'dispatcher passes (insert p, delete p, flag) positionally; operations()/repair() count Characters only; segmentation primitive',
+    'C15': 'grapheme flag unchanged; segmentation primitive',
+    'C16': 'no raw slicing of the text in the window functions; grapheme flag unchanged; segmentation primitive',
+    'C17': 'tensorize keeps one row per item; grapheme flag unchanged; segmentation primitive',
+    'C18': 'no thread-local / static state in match_words_with and edited_words',
+    'C19': 'every Ok(()) of train_bpe is behind merge_ops.save',
+}
+for _k, _v in _EXTRA3.items():
+    _EXTRA_DECIDES[_k] = (_EXTRA_DECIDES[_k] + '; ' + _v) if _k in _EXTRA_DECIDES else _v
 for _k, _v in _EXTRA_DECIDES.items():
     if _k in INFO and _v not in INFO[_k]['decides']:
         INFO[_k]['decides'] = INFO[_k]['decides'] + '; ' + _v
